@@ -197,6 +197,13 @@ var checkedHelpers = map[string]int{
 	"capnp.(*Segment).readPtr":           1,
 	"capnp.(streamHeader).segmentSize":   1,
 	"capnp.(streamHeader).totalSize":     1,
+	// a pointer read that failed yields the null pointer: testing the value
+	// (IsValid) before the error turns an unreadable field into an unset one
+	"capnp.(Struct).Ptr":     1,
+	"capnp.(PointerList).At": 1,
+	"capnp.canonicalPtr":     1,
+	// the segment an arena hands out is installed only when it did not refuse
+	"capnp.(Arena).Allocate": 2,
 }
 
 // single-result predicates whose result must be branched on.
@@ -223,11 +230,19 @@ var ignoredCompanion = map[string]string{
 	"capnp.Transform | readPtr":               "n/a",
 }
 
-func ruleCheckedResults(ctx *Ctx, rule string) {
+func ruleCheckedResults(ctx *Ctx, rule string) { ruleCheckedResultsIn(ctx, rule, nil) }
+
+// ruleCheckedResultsIn is ruleCheckedResults restricted to the functions scope
+// accepts (and the helpers that did not exist on the reference tree): the same
+// obligations under another property's id.
+func ruleCheckedResultsIn(ctx *Ctx, rule string, scope func(name string) bool) {
 	q := ssaq.For(ctx.Prog)
 	r := ctx.Rep
 	for _, f := range q.FuncsIn("", "encoding/text", "pogs") {
 		name := ssaq.FuncName(f)
+		if scope != nil && !scope(name) && !newHelperUnder(q, f, scope) {
+			continue
+		}
 		count := map[string]int{}
 		for _, b := range f.Blocks {
 			for _, in := range b.Instrs {
@@ -236,6 +251,9 @@ func ruleCheckedResults(ctx *Ctx, rule string) {
 					continue
 				}
 				cn := ssaq.StaticCalleeName(call)
+				if cn == "" {
+					cn = ssaq.InvokeName(call) // capnp.(Arena).Allocate
+				}
 				short := cn[strings.LastIndex(cn, ".")+1:]
 				if checkedPredicates[cn] {
 					count[short]++
